@@ -18,7 +18,8 @@ RESOLVERS = ["_resolve_target_set_from_expr", "NixSourceCode._resolve_target_set
 
 def case_classes(prog: Program, key: str) -> tuple[set[str], ast.Match]:
     f = prog.func(key)
-    ms = [n for n in walk_no_nested(f.node) if isinstance(n, ast.Match)]
+    from sa.util import match_form
+    ms = [n for n in walk_no_nested(match_form(f.node)) if isinstance(n, ast.Match)]
     if len(ms) != 1:
         raise AnalysisError(f"{key}: expected exactly one match statement")
     out = set()
